@@ -35,6 +35,16 @@ CLAIMED = {
              "model-vs-code tie is the per-run history-based differential check, with an independent oracle comparing against "
              "freshly built calculators.",
         design="DESIGN.md section 7 C04", technique="Coq proof by induction over operation histories (state-machine invariants, refinement to a fold) + model/implementation correspondence on histories"),
+    "C18": dict(
+        text="Theorems over the API state machine for ALL histories of add_rule/delete_rule: the API rules of a language are "
+             "exactly the reference list (add appends, delete removes the first registration of that name) i.e. the survivors "
+             "in registration order; built-in rules, other languages and sessions untouched; add fails exactly for an unknown "
+             "language, delete exactly for an unknown language/name; a declining rule anywhere in the list leaves the rewrite "
+             "loop identical to the loop without it (all lines, all fuel) and matching never panics on a stored pattern; "
+             "duplicate unit families / item indices are refused with no state change. Behavioural equivalence with a fresh "
+             "calculator replaying the survivors, rule effect with named fields and the unit chain are decided by the per-run "
+             "differential check (paired histories) plus an independent oracle; a computed end-to-end example is a theorem.",
+        design="DESIGN.md section 7 C18", technique="Coq proof by induction over registration histories (refinement to a list spec) + model/implementation correspondence on paired histories"),
 }
 
 PENDING_REASON = "check not built yet (work in progress; see DESIGN.md section 7)"
